@@ -93,7 +93,8 @@ Theorem LIFTMIN_success_post : forall (H : str -> str) cfg s roots w c,
        (forall l, ~ In l extra ->
           label_in l (w_ext w0) = label_in l (w_ext (b_world (build_prefix H cfg s roots w c i)))) /\
        run_command s t w0 = Some (b_world (build_prefix H cfg s roots w c (S i)))) /\
-  (exists dh res, dep_hashes s (build_prefix H cfg s roots w c i) (td_deps t) = Some dh /\
+  (cfg_cache cfg = true ->       (* a disabled cache is not written *)
+   exists dh res, dep_hashes s (build_prefix H cfg s roots w c i) (td_deps t) = Some dh /\
                   rlookup (key_of H s t dh) (c_results (b_cache (build_prefix H cfg s roots w c (S i)))) =
                   Some res).
 Proof. exact executed_post_any_mode. Qed.
